@@ -433,6 +433,9 @@ where
                             // the contents of the new one.
                             stream.ldap = new_stream.ldap;
                             stream.rx = new_stream.rx;
+                            // The previous page's result has served its purpose; it's not the
+                            // result of the Search if we stop before the last page.
+                            stream.res = None;
                             continue 'ent;
                         }
                     }
